@@ -276,11 +276,11 @@ func (g *Gen) genStoreHistory(prop string, maxOps int) {
 			g.stats["op:add"]++
 		case 1:
 			o := ids[r.Intn(len(ids))]
-			if o == id {
-				continue
+			if o == id && !r.Bool(25) {
+				continue // (a store merged into itself now and then: it doubles)
 			}
 			save := e.truth.Copy()
-			e.truth.Merge(sg.h[o].truth)
+			e.truth.Merge(sg.h[o].truth.Copy())
 			if !e.truth.InEnvelope() {
 				e.truth = save
 				g.stats["envelope-refused"]++
